@@ -403,9 +403,22 @@ def check_attribute_dispatch(ctx):
               "the attribute table is resolved by content shape: simpleContent extension / complexContent extension / plain",
               fail_detail=f"recognised branches: {sorted(branches)}", key='R-EXH.attributes|shapes')
     branches_ag = {'attributeGroup': f_ag.node.body}
+    # a branch may only select the list of children (`children = <extension>.get_children()`) for one dispatching loop that follows the chain
+    shared = {}
+    if top is not None:
+        for holder in ast.walk(f_ct.node):
+            for field in ('body', 'orelse'):
+                lst = getattr(holder, field, None)
+                if isinstance(lst, list) and any(x is top for x in lst):
+                    after = lst[[i for i, x in enumerate(lst) if x is top][0] + 1:]
+                    for lp in [x for x in after if isinstance(x, ast.For) and isinstance(x.iter, ast.Name) and tag_tests(x)]:
+                        shared.setdefault(lp.iter.id, []).append(lp)
     for fn, brs in ((f_ct, branches), (f_ag, branches_ag)):
         for dom_name, body in brs.items():
             loops = loops_below(fn, body)
+            if fn is f_ct and not loops:
+                selected = {t.id for st in body for n in ast.walk(st) if isinstance(n, ast.Assign) for t in n.targets if isinstance(t, ast.Name)}
+                loops = [lp for name in sorted(selected & set(shared)) for lp in shared[name]]
             res.check(bool(loops), 'R-EXH.attributes', fn.fq, f"[{dom_name}] the children are iterated and dispatched on their tag",
                       key=f"R-EXH.attributes|loops|{fn.qualname}|{dom_name}")
             handled = set()
